@@ -26,6 +26,7 @@ import (
 	"math/rand"
 	"os"
 	"path/filepath"
+	"runtime"
 	"sort"
 	"strings"
 	"sync"
@@ -57,6 +58,7 @@ type c19HResult struct {
 	Fails        []c19HFail     `json:"fails"`
 	Counts       map[string]int `json:"counts"`
 	Done         bool           `json:"done"`
+	Dump         string         `json:"dump,omitempty"` // goroutine dump taken by the watchdog
 }
 
 type c19Req struct {
@@ -114,31 +116,122 @@ func c19HammerChild(c *Ctx) {
 	h := &c19Hammer{res: &c19HResult{Rounds: c.N, Counts: map[string]int{}}, out: c.Out, rnd: c.Rnd, seen: map[string]bool{}}
 	h.flush()
 	for r := 0; r < c.N; r++ {
-		done := make(chan bool, 1)
-		go func() {
-			defer func() {
-				if x := recover(); x != nil {
-					h.fail(r, "c19/panic", "harness goroutine of the round panicked: "+fmt.Sprint(x))
-					done <- true
-				}
-			}()
-			h.round(r)
-			done <- true
-		}()
-		select {
-		case <-done:
-			h.res.Completed++
-		case <-time.After(90 * time.Second):
-			// a timeout is an inconclusive sample (counted), never a failure; the goroutines cannot be
-			// killed, so stop here
-			h.res.Inconclusive++
-			h.flush()
-			os.Exit(0)
-		}
-		h.flush()
+		h.runRound("c19-hammer", r, func() { h.round(r) })
 	}
 	h.res.Done = true
 	h.flush()
+}
+
+// c19RoundLimit: a round that does not finish within this limit is a DEADLOCK OR TIMEOUT failure (lock-order
+// inversion, a missing Unlock, a lost wake-up are exactly what C19 must see).  The limit is generous: ≥ 10× the
+// slowest round observed on /repo under the race detector on a loaded machine (see props assumptions).
+func c19RoundLimit() time.Duration {
+	limit := 600
+	if v := os.Getenv("VERIF_C19_ROUND_LIMIT_S"); v != "" {
+		fmt.Sscan(v, &limit)
+	}
+	return time.Duration(limit) * time.Second
+}
+
+// runRound runs one round of a child under the watchdog; records the slowest round; a harness panic is c19/panic.
+func (h *c19Hammer) runRound(child string, r int, f func()) {
+	done := make(chan bool, 1)
+	t0 := time.Now()
+	go func() {
+		defer func() {
+			if x := recover(); x != nil {
+				h.fail(r, "c19/panic", child+": harness goroutine of the round panicked: "+firstLine(fmt.Sprint(x)))
+			}
+			done <- true
+		}()
+		f()
+	}()
+	select {
+	case <-done:
+		h.res.Completed++
+		ms := int(time.Since(t0) / time.Millisecond)
+		h.mu.Lock()
+		if ms > h.res.Counts[child+":max-round-ms"] {
+			h.res.Counts[child+":max-round-ms"] = ms
+		}
+		h.mu.Unlock()
+		h.flush()
+	case <-time.After(c19RoundLimit()):
+		buf := make([]byte, 4<<20)
+		buf = buf[:runtime.Stack(buf, true)]
+		h.fail(r, "c19/deadlock-or-timeout/"+child, fmt.Sprintf("round %d of %s did not finish within %v; goroutines blocked inside /repo: %s", r, child, c19RoundLimit(), c19BlockedSummary(string(buf))))
+		h.mu.Lock()
+		h.res.Dump = c19TrimDump(string(buf))
+		h.mu.Unlock()
+		h.flush()
+		os.Exit(3) // the goroutines cannot be killed
+	}
+}
+
+// c19BlockedSummary: one line per goroutine that waits on a lock / channel with a /repo frame on its stack:
+// "state @ top /repo frame"
+func c19BlockedSummary(dump string) string {
+	var out []string
+	seen := map[string]int{}
+	for _, g := range strings.Split(dump, "\n\n") {
+		lines := strings.Split(g, "\n")
+		if len(lines) < 2 || !strings.HasPrefix(lines[0], "goroutine ") {
+			continue
+		}
+		state := lines[0]
+		if i := strings.Index(state, "["); i >= 0 {
+			state = strings.Trim(state[i:], "[]:")
+		}
+		if !strings.Contains(state, "semacquire") && !strings.Contains(state, "sync.") && !strings.Contains(state, "chan") && !strings.Contains(state, "select") {
+			continue
+		}
+		top := ""
+		for _, l := range lines[1:] {
+			if strings.HasPrefix(l, "github.com/LemoFoundationLtd/lemochain-core/") {
+				top = strings.TrimPrefix(l, "github.com/LemoFoundationLtd/lemochain-core/")
+				if i := strings.LastIndex(top, "("); i > 0 {
+					top = top[:i]
+				}
+				break
+			}
+		}
+		if top == "" {
+			continue
+		}
+		k := strings.SplitN(state, ",", 2)[0] + " @ " + top
+		if seen[k] == 0 {
+			out = append(out, k)
+		}
+		seen[k]++
+	}
+	for i, k := range out {
+		if seen[k] > 1 {
+			out[i] = fmt.Sprintf("%s (x%d)", k, seen[k])
+		}
+	}
+	if len(out) > 14 {
+		out = out[:14]
+	}
+	return strings.Join(out, " ; ")
+}
+
+// c19TrimDump keeps the goroutines that have a /repo frame (the replay artefact of a deadlock)
+func c19TrimDump(dump string) string {
+	var keep []string
+	n := 0
+	for _, g := range strings.Split(dump, "\n\n") {
+		if strings.Contains(g, "LemoFoundationLtd/lemochain-core/") {
+			if len(g) > 1800 {
+				g = g[:1800] + "\n\t…"
+			}
+			keep = append(keep, g)
+			n += len(g)
+			if n > 40000 {
+				break
+			}
+		}
+	}
+	return strings.Join(keep, "\n\n")
 }
 
 const c19Deputies = 5
@@ -293,7 +386,10 @@ func (h *c19Hammer) round(round int) {
 	sc := h.build(round)
 	selfKey := sc.w.DeputyKeys[0]
 	deputynode.SetSelfNodeKey(selfKey)
-	selfID := append([]byte{}, deputynode.GetSelfNodeID()...)
+	// the node id is derived from the key by the harness; /repo's GetSelfNodeID must agree
+	if !bytes.Equal(deputynode.GetSelfNodeID(), c19NodeIDOf(selfKey)) {
+		h.fail(round, "c19/fed-fact/signature", "deputynode.GetSelfNodeID() is not the uncompressed public key of the key the harness installed")
+	}
 	consensus.VerifSetSigCache(common.Hash{}, nil)
 	a := sc.w.NewNode(c19Deputies)
 	defer a.Close()
@@ -317,9 +413,8 @@ func (h *c19Hammer) round(round int) {
 	check := func(p *network.BlockConfirmData) {
 		atomic.AddInt64(&emitted, 1)
 		ownEmitted = append(ownEmitted, p)
-		id, err := p.SignInfo.RecoverNodeID(p.Hash)
-		if err != nil || !bytes.Equal(id, selfID) {
-			h.fail(round, "c19/emitted-invalid-confirm", fmt.Sprintf("confirm on the feed for block %d:%x is not a signature of this node over that hash (recover err=%v, signer=%x…)", p.Height, p.Hash[:4], err, firstBytes(id, 4)))
+		if !h.c19OwnSig(round, "confirm on the feed", selfKey, p.Hash, p.SignInfo[:]) {
+			h.fail(round, "c19/emitted-invalid-confirm", fmt.Sprintf("confirm on the feed for block %d:%x is not a signature of this node's key over that hash (ecdsa.Verify against the installed key)", p.Height, p.Hash[:4]))
 			return
 		}
 		hh, ok := known.Load(p.Hash)
@@ -422,8 +517,12 @@ func (h *c19Hammer) round(round int) {
 				known.Store(d.mined.Hash(), d.mined.Height())
 				h.count("hammer:mined-blocks", 1)
 				// the header signature of a block this node mined must be its own signature over that block
-				if id, err := d.mined.SignerNodeID(); err != nil || !bytes.Equal(id, selfID) {
-					h.fail(round, "c19/mined-block-invalid-signature", fmt.Sprintf("MineBlock returned block %d:%x whose header signature is not this node's signature over its hash (err=%v)", d.mined.Height(), d.mined.Hash().Bytes()[:4], err))
+				fresh := CloneBlock(d.mined) // decoded from its RLP: no memo of the engine's object is read
+				if fresh.Hash() != d.mined.Hash() {
+					h.fail(round, "c19/fed-fact/signature", "the block MineBlock returned hashes differently after an RLP round trip")
+				}
+				if !h.c19OwnSig(round, "header signature of a mined block", selfKey, fresh.Hash(), fresh.Header.SignData) {
+					h.fail(round, "c19/mined-block-invalid-signature", fmt.Sprintf("MineBlock returned block %d:%x whose header signature is not this node's signature over its hash (ecdsa.Verify against the installed key)", fresh.Height(), fresh.Hash().Bytes()[:4]))
 				}
 			}
 			record(d)
@@ -532,8 +631,8 @@ func (h *c19Hammer) round(round int) {
 				if err != nil {
 					continue
 				}
-				id, err := types.BytesToSignData(sig).RecoverNodeID(hash)
-				if err != nil || !bytes.Equal(id, selfID) {
+				if !c19SigBy(selfKey, hash, sig) {
+					var err error
 					if atomic.AddInt64(&signBad, 1) == 1 {
 						h.fail(round, "c19/signblock-wrong-signature", fmt.Sprintf("consensus.SignBlock(%x…) called concurrently with the engine returned a signature that does not verify for that hash under the node key (recover err=%v)", hash[:4], err))
 					}
@@ -562,8 +661,8 @@ func (h *c19Hammer) round(round int) {
 					if err != nil {
 						continue
 					}
-					id, err := types.BytesToSignData(sig).RecoverNodeID(hash)
-					if err != nil || !bytes.Equal(id, selfID) {
+					if !c19SigBy(selfKey, hash, sig) {
+						var err error
 						if atomic.AddInt64(&signBad, 1) == 1 {
 							h.fail(round, "c19/signblock-wrong-signature", fmt.Sprintf("consensus.SignBlock(%x…) called from four goroutines (alternating hashes) returned a signature that does not verify for the requested hash under the node key (recover err=%v)", hash[:4], err))
 						}
@@ -609,8 +708,7 @@ func (h *c19Hammer) round(round int) {
 			continue
 		}
 		for _, sgd := range b.Confirms {
-			id, err := sgd.RecoverNodeID(b.Hash())
-			if err != nil || a.DM.GetDeputyByNodeID(ht, id) == nil {
+			if c19SignerAmong(sc.w.DeputyKeys, b.Hash(), sgd[:]) < 0 {
 				h.fail(round, "c19/stored-invalid-confirm", fmt.Sprintf("stable block %d stores a confirm that is not a deputy's signature over its hash", ht))
 			}
 		}
